@@ -19,6 +19,10 @@ class Deadlock(Exception):
     pass
 
 
+class Killed(BaseException):
+    """raised inside parked threads when the scheduler abandons a run (step limit)"""
+
+
 class Sched:
     def __init__(self, rng, step_limit=20000):
         self.rng = rng
@@ -32,6 +36,7 @@ class Sched:
         self.step_limit = step_limit
         self.errors = []         # exceptions escaping thread bodies
         self.current_pkt = {}    # tid -> packet id being written (for snd events)
+        self.killed = False
 
     def add(self, tid):
         with self.cv:
@@ -56,8 +61,11 @@ class Sched:
             if self.running == me:
                 self.running = None
             self.cv.notify_all()
-            while self.running != me:
+            while self.running != me and not self.killed:
                 self.cv.wait()
+            if self.killed:
+                self.state[me] = 'done'
+                raise Killed()
             self.state[me] = 'running'
         return me
 
@@ -66,8 +74,20 @@ class Sched:
         if me is not None:
             self.log.append((me,) + ev)
 
+    def kill(self):
+        """abandon the run: every parked thread unwinds with Killed"""
+        with self.cv:
+            self.killed = True
+            self.running = None
+            self.cv.notify_all()
+
     def finish(self):
         me = self.me()
+        if self.killed:
+            with self.cv:
+                self.state[me] = 'done'
+                self.cv.notify_all()
+            return
         self.before('end')
         self.log.append((me, 'end'))
         with self.cv:
@@ -131,6 +151,17 @@ def make_lock_class(S):
             self.depth = 0
 
         def acquire(self, blocking=True, timeout=-1):
+            if not blocking and S.me() is not None:
+                # a non-blocking attempt is an atomic action of its own that is always enabled
+                # (the unchanged library never makes one; a changed one may)
+                me = S.before('try', self)
+                if self.owner not in (None, me):
+                    S.emit('try', 0)
+                    return False
+                self.owner = me
+                self.depth += 1
+                S.emit('try', 1)
+                return True
             me = S.before('acq', self)
             if me is None:          # unregistered (harness) thread: plain semantics, no scheduling
                 self.depth += 1
@@ -191,6 +222,8 @@ class ISock:
         self.wire = []          # (tid, pid, chunk index, bytes)
         self.closed = False
         self.chunk = {}
+        self.fail_prefix = None     # fault injection: the n-th length-prefix send raises EPIPE once
+        self.prefixes = 0
 
     def send(self, data):
         S = self.S
@@ -200,6 +233,12 @@ class ISock:
         self.chunk[me] = 1 - c
         if self.closed:
             raise OSError(9, 'Bad file descriptor')
+        if c == 0:
+            self.prefixes += 1
+            if self.fail_prefix is not None and self.prefixes - 1 == self.fail_prefix:
+                self.chunk[me] = 0
+                S.emit('sndfail', p)
+                raise BrokenPipeError(32, 'Broken pipe')
         self.wire.append((me, p, c, bytes(data)))
         S.emit('snd', p, c)
         return len(data)
@@ -272,6 +311,8 @@ def make_nt_class(S, C):
             S.register_current(self.sched_tid)
             try:
                 base.run(self)
+            except Killed:
+                pass
             except BaseException as e:    # re-raised from the thread
                 S.errors.append((self.sched_tid, e))
             finally:
@@ -285,6 +326,8 @@ def user_thread(S, tid, body):
         S.register_current(tid)
         try:
             body()
+        except Killed:
+            pass
         except BaseException as e:
             S.errors.append((tid, e))
         finally:
